@@ -2,11 +2,13 @@ package statehist
 
 import (
 	"fmt"
+	"strings"
 
 	"verifharness/hx"
 )
 
-// Optional probes outside the Coq model (C03 item 7). They use a Go-side truth only.
+// Generators for the system-contract and the Sierra / CASM families of C03 (both run through the extracted
+// model), and the optional deploy+replace probe (outside the Coq model, Go-side truth only).
 
 // ProbeFinding is one disagreement found by a probe.
 type ProbeFinding struct {
@@ -26,38 +28,219 @@ func SlotClass(prefix, backend string, how How, mm, truth string, byNumberAtHead
 }
 
 // SysUniverse: the two system contracts (0x1 block-hash store, 0x2 compression counter: juno creates
-// them with class hash 0 on their first storage write) and one ordinary contract.
+// them with class hash 0 on their first storage write and removes them when their storage is empty) and
+// one ordinary contract.
 func SysUniverse() *Universe {
-	return &Universe{Addrs: []string{"1", "2", "64"}, Slots: []string{"1", "2", "3", "a"}}
+	return &Universe{Addrs: []string{"1", "2", "64"}, Slots: []string{"1", "2", "3"}}
 }
 
-func isSys(a string) bool { return a == "1" || a == "2" }
-
-// sysLevel is the Go truth after one block: slot values and which system contracts were ever
-// written up to and including that block (on the current chain).
-type sysLevel struct {
-	abs  *Abs
-	seen map[string]bool
+// sysGenLevel is what the generator tracks per block of its abstract chain: the slot values after the
+// block, whether 0x64 is deployed, and - to predict the legacy backend's failing reverts - which system
+// contracts have a record and at which height it was created.
+type sysGenLevel struct {
+	slot    map[string]string // "addr:slot" -> non-zero value
+	dep64   bool
+	created map[string]int // system address -> block that created its record (legacy: never removed by a Store)
 }
 
-func (l *sysLevel) clone() *sysLevel {
-	c := &sysLevel{abs: l.abs.Clone(), seen: map[string]bool{}}
-	for k, v := range l.seen {
-		c.seen[k] = v
+func (l *sysGenLevel) clone() *sysGenLevel {
+	c := &sysGenLevel{slot: map[string]string{}, dep64: l.dep64, created: map[string]int{}}
+	for k, v := range l.slot {
+		c.slot[k] = v
+	}
+	for k, v := range l.created {
+		c.created[k] = v
 	}
 	return c
 }
 
-// GenSysCase generates stores (non-zero writes only, so that the legacy backend reverts every block)
-// and reverts over SysUniverse.
-func GenSysCase(r *hx.RNG, u *Universe) []Op {
+func (l *sysGenLevel) empty(a string) bool {
+	for k := range l.slot {
+		if strings.HasPrefix(k, a+":") {
+			return false
+		}
+	}
+	return true
+}
+
+// SysGenInfo says what a generated system-contract case contains (histogram labels).
+type SysGenInfo struct {
+	Guarded bool     // every block leaves the system contracts it writes to non-empty (C03.Model.sys_guard)
+	Labels  []string // per shape
+}
+
+// GenSysCase generates stores and reverts over SysUniverse in every shape the system contracts know:
+// creation by a first write, growth, overwrites, zero writes that leave other slots, zero writes that EMPTY
+// the contract, zero writes to a contract that does not exist, re-creation after an emptying, reverts across
+// the creation / the emptying / the re-creation. guarded = true never empties a contract (the shapes for
+// which C03_new / C03_old hold); legacy = predict the legacy backend's failing reverts so that the abstract
+// chain stays in step.
+func GenSysCase(r *hx.RNG, u *Universe, guarded, legacy bool) ([]Op, *SysGenInfo) {
+	info := &SysGenInfo{Guarded: true}
+	lab := func(l string) { info.Labels = append(info.Labels, "sys:"+l) }
 	var ops []Op
-	var stack []*sysLevel
-	n := 3 + r.Intn(8)
+	stack := []*sysGenLevel{}
+	cur := func() *sysGenLevel {
+		if len(stack) == 0 {
+			return &sysGenLevel{slot: map[string]string{}, created: map[string]int{}}
+		}
+		return stack[len(stack)-1]
+	}
+	n := 3 + r.Intn(9)
 	vals := []string{"1", "2", "3", "deadbeef"}
+	sys := []string{"1", "2"}
+	for len(ops) < n {
+		if len(stack) > 0 && r.Chance(30) {
+			k := 1 + r.Intn(3)
+			if r.Chance(15) {
+				k = len(stack)
+			}
+			for ; k > 0 && len(stack) > 0 && len(ops) < n; k-- {
+				ops = append(ops, Op{Revert: true})
+				top, h := stack[len(stack)-1], len(stack)-1
+				if legacy {
+					// purgesystemContracts + old-root check: a contract that exists with an empty storage once
+					// the block is undone makes the revert fail unless this block created it
+					below := &sysGenLevel{slot: map[string]string{}}
+					if h > 0 {
+						below = stack[h-1]
+					}
+					fails := false
+					for _, a := range sys {
+						if c, ok := top.created[a]; ok && below.empty(a) && c != h {
+							fails = true
+						}
+					}
+					if fails {
+						lab("legacy-revert-predicted-to-fail")
+						break
+					}
+				}
+				lab("revert")
+				stack = stack[:h]
+			}
+			continue
+		}
+		c := cur().clone()
+		h := len(stack)
+		d := Diff{}
+		if !c.dep64 && r.Chance(40) {
+			d.Deploy = append(d.Deploy, AV{A: "64", V: "a"})
+			c.dep64 = true
+		}
+		if c.dep64 && r.Chance(30) {
+			k := u.Slots[r.Intn(len(u.Slots))]
+			d.Store = append(d.Store, AKV{A: "64", K: k, V: vals[r.Intn(len(vals))]})
+		}
+		for _, a := range sys {
+			if !r.Chance(55) {
+				continue
+			}
+			wasEmpty := cur().empty(a)
+			var mine []int
+			for _, k := range u.Slots {
+				old, has := c.slot[a+":"+k]
+				p := 35
+				if has {
+					p = 55
+				}
+				if !r.Chance(p) {
+					continue
+				}
+				v := vals[r.Intn(len(vals))]
+				switch {
+				case has && r.Chance(55):
+					v = "0"
+				case has && r.Chance(20):
+					v = old
+				case !has && r.Chance(15):
+					v = "0"
+				}
+				mine = append(mine, len(d.Store))
+				d.Store = append(d.Store, AKV{A: a, K: k, V: v})
+			}
+			if len(mine) == 0 {
+				continue
+			}
+			apply := func() {
+				for _, i := range mine {
+					e := d.Store[i]
+					if IsZeroHex(e.V) {
+						delete(c.slot, e.A+":"+e.K)
+					} else {
+						c.slot[e.A+":"+e.K] = e.V
+					}
+				}
+			}
+			apply()
+			if c.empty(a) && guarded {
+				// keep the contract alive: the last write of this address becomes non-zero
+				d.Store[mine[len(mine)-1]].V = vals[r.Intn(len(vals))]
+				apply()
+			}
+			switch {
+			case c.empty(a) && wasEmpty:
+				lab("zero-writes-to-missing-contract")
+				info.Guarded = false
+			case c.empty(a):
+				lab("emptied")
+				info.Guarded = false
+			case wasEmpty:
+				if _, ok := cur().created[a]; ok || everWritten(ops, a) {
+					lab("created-again")
+				} else {
+					lab("created")
+				}
+			default:
+				lab("written")
+			}
+			if _, ok := c.created[a]; !ok {
+				c.created[a] = h
+			}
+			if !legacy && c.empty(a) {
+				delete(c.created, a) // the new backend removes the record in Update
+			}
+		}
+		shuffle(r, d.Store)
+		stack = append(stack, c)
+		ops = append(ops, Op{Block: &BlockSpec{Diff: d, Salt: uint64(r.Intn(3))}})
+	}
+	return ops, info
+}
+
+func everWritten(ops []Op, a string) bool {
+	for _, o := range ops {
+		if o.Revert {
+			continue
+		}
+		for _, e := range o.Block.Diff.Store {
+			if e.A == a {
+				return true
+			}
+		}
+	}
+	return false
+}
+
+// ---------- Sierra declarations and CASM-hash migrations (C03.Model casm machine) ----------
+
+// GenCasmCase generates stores and reverts whose blocks declare Sierra classes (below and from protocol
+// 0.14.1) and migrate the compiled class hash of classes declared under the old hash. ids lists the
+// Sierra class ids used.
+func GenCasmCase(r *hx.RNG) (ops []Op, ids []uint64) {
+	type lvl struct{ reg *Registry }
+	stack := []lvl{}
+	reg := func() *Registry {
+		if len(stack) == 0 {
+			return NewRegistry()
+		}
+		return stack[len(stack)-1].reg
+	}
+	next := uint64(1) // ids are never reused, also not after a revert (a class hash names one definition)
+	n := 3 + r.Intn(8)
 	for len(ops) < n {
 		if len(stack) > 0 && r.Chance(28) {
-			k := 1 + r.Intn(2)
+			k := 1 + r.Intn(3)
 			if r.Chance(15) {
 				k = len(stack)
 			}
@@ -67,138 +250,45 @@ func GenSysCase(r *hx.RNG, u *Universe) []Op {
 			}
 			continue
 		}
-		cur := &sysLevel{abs: NewAbs(), seen: map[string]bool{}}
-		if len(stack) > 0 {
-			cur = stack[len(stack)-1].clone()
+		g := reg().Clone()
+		spec := &BlockSpec{Version: "0.14.0", Salt: uint64(r.Intn(3))}
+		v1 := true
+		if r.Chance(50) {
+			spec.Version, v1 = "0.14.1", false
 		}
-		d := Diff{}
-		if _, ok := cur.abs.Class["64"]; !ok && r.Chance(50) {
-			d.Deploy = append(d.Deploy, AV{A: "64", V: "a"})
-		}
-		for _, a := range u.Addrs {
-			_, dep := cur.abs.Class[a]
-			if !isSys(a) && !dep && len(d.Deploy) == 0 {
-				continue
-			}
-			for _, k := range u.Slots {
-				p := 20
-				if isSys(a) {
-					p = 30
-				}
-				if r.Chance(p) {
-					d.Store = append(d.Store, AKV{A: a, K: k, V: vals[r.Intn(len(vals))]})
+		if !v1 {
+			for _, id := range sortedIDs(g.Sierra) {
+				if inf := g.Sierra[id]; inf.V1 && !inf.Migrated && r.Chance(50) {
+					spec.Migrate = append(spec.Migrate, SierraDecl{ID: id, Casm: SierraCasmV2(id)})
+					inf.Migrated = true
+					g.Sierra[id] = inf
 				}
 			}
 		}
-		for _, e := range d.Deploy {
-			cur.abs.Class[e.A], cur.abs.Nonce[e.A] = e.V, "0"
+		for k := r.Intn(3); k > 0; k-- {
+			id := next
+			next++
+			ids = append(ids, id)
+			spec.DeclareV1 = append(spec.DeclareV1, SierraDecl{ID: id, Casm: U(0xca5000 + id)})
+			g.Sierra[id] = SierraInfo{V1: v1}
 		}
-		for _, e := range d.Store {
-			cur.abs.Slot[e.A+":"+e.K] = e.V
-			if isSys(e.A) {
-				cur.seen[e.A] = true
-			}
-		}
-		stack = append(stack, cur)
-		ops = append(ops, Op{Block: &BlockSpec{Diff: d, Salt: uint64(r.Intn(3))}})
+		stack = append(stack, lvl{g})
+		ops = append(ops, Op{Block: spec})
 	}
-	return ops
+	return ops, ids
 }
 
-// RunSysCase executes the ops on a pair and compares every storage read (by number, by hash, head)
-// with the Go truth. A system contract never written up to a block may read "not found" or zero there;
-// once written, its slots read their value (zero when unset). answers counts the compared tokens.
-func RunSysCase(ar *Arena, newState bool, u *Universe, ops []Op) (fs []ProbeFinding, answers int) {
-	backend := BackendName(newState)
-	p := ar.NewPair(newState)
-	defer p.Close()
-	add := func(class, what string) {
-		for _, f := range fs {
-			if f.Class == class {
-				return
-			}
-		}
-		fs = append(fs, ProbeFinding{Class: class, What: what, Ops: ops})
-	}
-	var stack []*sysLevel
-	qs := u.Queries()
-	expect := func(l *sysLevel, q Query) (want string, alsoNotFound bool) {
-		if isSys(q.A) {
-			return l.abs.SlotAt(q.A, q.K), !l.seen[q.A]
-		}
-		if _, ok := l.abs.Class[q.A]; !ok {
-			return NotFound, false
-		}
-		return l.abs.SlotAt(q.A, q.K), false
-	}
-	for i := range ops {
-		out := p.Apply(&ops[i])
-		if !out.OK {
-			kind := "store-failed"
-			if ops[i].Revert {
-				kind = "revert-failed"
-			}
-			add("syscontract:"+backend+":"+kind, fmt.Sprintf("%s backend: op %d failed: %s in: %s", backend, i, out.Err(), OpsLine(ops[:i+1])))
-			return fs, answers
-		}
-		if ops[i].Revert {
-			stack = stack[:len(stack)-1]
+// CasmOpsLine is the oracle encoding of the ops for the casm machine: "R" | "S <CasmLine>" joined by ';'.
+func CasmOpsLine(ops []Op) string {
+	p := make([]string, len(ops))
+	for i, o := range ops {
+		if o.Revert {
+			p[i] = "R"
 		} else {
-			cur := &sysLevel{abs: NewAbs(), seen: map[string]bool{}}
-			if len(stack) > 0 {
-				cur = stack[len(stack)-1].clone()
-			}
-			d := &ops[i].Block.Diff
-			for _, e := range d.Deploy {
-				cur.abs.Class[e.A], cur.abs.Nonce[e.A] = e.V, "0"
-			}
-			for _, e := range d.Store {
-				if IsZeroHex(e.V) {
-					delete(cur.abs.Slot, e.A+":"+e.K)
-				} else {
-					cur.abs.Slot[e.A+":"+e.K] = e.V
-				}
-				if isSys(e.A) {
-					cur.seen[e.A] = true
-				}
-			}
-			stack = append(stack, cur)
-		}
-		if !(ops[i].Revert || i == len(ops)-1 || i%3 == 2) {
-			continue
-		}
-		if int(p.Height()) != len(stack) {
-			add("syscontract:"+backend+":height", fmt.Sprintf("%s backend: %d blocks, expected %d after: %s", backend, p.Height(), len(stack), OpsLine(ops[:i+1])))
-			return fs, answers
-		}
-		var byNum []string
-		check := func(how How, n int, got []string) {
-			for j, q := range qs {
-				if q.Kind != "slot" {
-					continue
-				}
-				answers++
-				want, lenient := expect(stack[n], q)
-				if got[j] == want || (lenient && (got[j] == NotFound || got[j] == "0")) {
-					continue
-				}
-				mm := Mismatch(got[j], want)
-				right := how == Head && byNum != nil && byNum[j] == want
-				add(SlotClass("syscontract:", backend, how, mm, want, right),
-					fmt.Sprintf("%s backend, %s %s at block %d: juno answers %s, expected %s (system contracts 0x1/0x2 exist from their first write) after: %s",
-						backend, how, q, n, got[j], want, OpsLine(ops[:i+1])))
-			}
-		}
-		for n := range stack {
-			byNum = Observe(p.Fol.BC, u, ByNumber, uint64(n), nil)
-			check(ByNumber, n, byNum)
-			check(ByHash, n, Observe(p.Fol.BC, u, ByHash, 0, p.Chain[n].Block.Hash))
-		}
-		if len(stack) > 0 {
-			check(Head, len(stack)-1, Observe(p.Fol.BC, u, Head, 0, nil))
+			p[i] = "S " + o.Block.CasmLine()
 		}
 	}
-	return fs, answers
+	return strings.Join(p, ";")
 }
 
 // DeployReplaceOps: one block deploys 0x64 with class a AND lists it under replaced classes with
